@@ -234,7 +234,12 @@ def pump : Nat → State α → State α × List (Elem (Bin α)) × List (Sel α
       if sel.isPanic then (st', [], [sel], .panic)
       -- mod.rs:284-307: with `already_timed_out` the receive has no timeout
       else if st.alreadyTimedOut then ({ st' with alreadyTimedOut := false }, [], [sel], .blocked)
-      else ({ st' with alreadyTimedOut := true }, [], [sel], .idle)
+      else
+        -- the receive times out: `Start` handles the fake `FlushBatch` (a pending watermark
+        -- announcement goes out first, mod.rs `pending_watermark`); the `FlushBatch` itself is the
+        -- protocol's end-of-pull marker and is not part of the output
+        let t := Noir.Start.step st'.start (Noir.Start.Arrival.timeout : Noir.Start.Arrival (Bin α))
+        ({ st' with start := t.1, alreadyTimedOut := true }, t.2.dropLast, [sel], .idle)
     | some b =>
       let fed := feed st'.start b.1 b.2
       let st'' := { st' with start := fed.1, alreadyTimedOut := false }
